@@ -37,6 +37,7 @@ FINDINGS = {
     "client-thread-unjoined": "the thread of a client that disconnects on its own is joinable and never joined (only rfbShutdownServer joins, and only clients still in the list): one thread's resources stay allocated per past connection",
     "teardown-outlives-shutdown": "rfbShutdownServer does not wait for client threads that are already tearing themselves down; they may still run when the application calls rfbScreenCleanup",
     "copyrect-inflight-race": "rfbDoCopyRect/rfbScheduleCopyRect while an output thread is between taking its update region and sending it: the client copies source pixels it has already received in their new state; its picture stays wrong",
+    "stale-descriptor-write": "rfbWriteExact reads cl->sock before it takes outputMutex and clientInput closes the socket without that mutex: an application-thread writer (rfbSendBell, rfbSendServerCutText ...) that holds a reference on a leaving client writes to the descriptor number after it was closed; if a new connection arrived in between the bytes go into that client's socket or notify pipe (which makes its input thread shut the innocent client down)",
     "softcursor-pollutes-others": "a client without cursor-shape updates has the cursor drawn into the shared framebuffer while it sends; other clients' output threads capture those pixels",
 }
 
@@ -261,18 +262,33 @@ LIBFRAMES_SKIP = {"touch", "pthread_mutex_lock", "pthread_mutex_unlock", "pthrea
 
 def run_harness(h, script, timeout=200):
     """one schedule of one scenario on the real code -> (rc, stdout, stderr); the sanitizer report is
-    kept whole (the classification of known defects reads its stacks)"""
+    kept whole (the classification of known defects reads its stacks).
+    The scheduler, its virtual clock and its step / virtual-time budgets are independent of the load of
+    the machine; the two real-time limits (the harness' own alarm and this subprocess time-out) are not
+    verdicts: a run that trips one is repeated ALONE (one confirmation at a time across all checks of
+    this tree) with three times the limits, and only a second expiry is reported."""
     import subprocess
     e = dict(os.environ)
     e["ASAN_OPTIONS"] = "detect_leaks=1:abort_on_error=0:print_legend=0:allocator_may_return_null=1"
     e["UBSAN_OPTIONS"] = "print_stacktrace=1"
-    try:
-        r = subprocess.run([h], input=script, stdout=subprocess.PIPE, stderr=subprocess.PIPE, text=True,
-                           timeout=timeout, env=e, errors="replace")
-        return r.returncode, r.stdout, r.stderr[:30000]
-    except subprocess.TimeoutExpired as ex:
-        so = ex.stdout.decode(errors="replace") if isinstance(ex.stdout, bytes) else (ex.stdout or "")
-        return 124, so, "TIMEOUT after %ss" % timeout
+
+    def once(limit, alarm_s):
+        e["C13_ALARM_S"] = str(alarm_s)
+        try:
+            r = subprocess.run([h], input=script, stdout=subprocess.PIPE, stderr=subprocess.PIPE, text=True,
+                               timeout=limit, env=e, errors="replace")
+            return r.returncode, r.stdout, r.stderr[:30000]
+        except subprocess.TimeoutExpired as ex:
+            so = ex.stdout.decode(errors="replace") if isinstance(ex.stdout, bytes) else (ex.stdout or "")
+            return 124, so, "TIMEOUT after %ss" % limit
+
+    rc, out, err = once(timeout, timeout // 2)
+    if rc == 124 or "res realtime-watchdog" in out:
+        with build.Lock("confirm-hang"):
+            rc, out, err = once(3 * timeout, 3 * timeout // 2)
+        if rc == 124 or "res realtime-watchdog" in out:
+            rc, err = 124, (err or "") + "\nreal-time limit exceeded twice (second time alone, %ss)" % (3 * timeout)
+    return rc, out, err
 
 
 def parse(out):
@@ -308,6 +324,17 @@ def asan_info(err):
     for b in blocks[1:]:
         if "freed by thread" in b: freed = frames(b); break
     return {"kind": m.group(1), "access": acc[:6], "freed": freed[:4]}
+
+
+def ti_role_app(evs, what):
+    """the stale write was made by the application thread (holding outputMutex of the leaving client inside
+    rfbWriteExact), after that client's input thread had closed the socket"""
+    m = re.search(r"holds=O(\d+)", what)
+    if not m: return False
+    c = m.group(1)
+    closed = [i for i, e in enumerate(evs) if e.split() == ["I" + c, "sock", c]]
+    return bool(closed) and any(e.split() == ["A", "lock", "O" + c] for e in evs[:closed[0]] + evs[closed[0]:]) and \
+        any(e.split()[0] == "A" and e.split()[1:] == ["unlock", "O" + c] for e in evs[closed[0]:])
 
 
 def analyse(script, rc, out, err):
@@ -365,7 +392,7 @@ def analyse(script, rc, out, err):
     elif "runtime error" in err:
         add("sanitizer: undefined behaviour", None, err[-2500:])
     elif rc == 124:
-        add("harness timeout (real time)", None, None)
+        add("harness exceeded its real-time limit twice, the second time running alone with three times the limit", None, None)
     elif rc != 0:
         add("harness exit code %d" % rc, None, err[-1500:])
     for r in res:
@@ -398,6 +425,7 @@ def analyse(script, rc, out, err):
             what = " ".join(t[1:])
             if "join-of-unknown-thread" in what and listen: fin = "shutdown-accept-race"
             elif "unlock-by-non-owner S" in what: fin = "newfb-membership-race"
+            elif "write-on-stale-descriptor" in what and ti_role_app(evs, what): fin = "stale-descriptor-write"
             elif ("destroy-locked-mutex" in what or "unlock-by-non-owner U" in what) and ti.get("A", {}).get("at") in ("mutex_unlock", "write"):
                 fin = "iterator-ref-race"
             elif "destroy-cond-with-waiters" in what and any(v.get("state") == "join" and v.get("target", "").startswith("O")
